@@ -142,12 +142,93 @@ fn lit_text(l: &Lit) -> String {
     render_expr(&Expr::Lit(l.clone()))
 }
 
+/// 256-bit values for the decimal printer: powers of ten and of two with their neighbours, the maximum, and for
+/// every decimal position a 78-digit pattern of nines with a single zero (resp. a single one among zeros) there.
+fn u256_print_alphabet(quick: bool) -> Vec<Big> {
+    let max = Big::pow2(256).sub(&Big::from_u128(1));
+    let one = Big::from_u128(1);
+    let mut v = vec![Big::zero(), one.clone(), max.clone()];
+    let mut p10 = one.clone();
+    let mut pows = vec![];
+    for _ in 0..78 {
+        pows.push(p10.clone());
+        p10 = p10.mul_small(10);
+    }
+    for p in &pows {
+        for x in [p.clone(), p.sub(&one), p.add(&one), p.mul_small(3).add(&Big::from_u128(42)), p.mul_small(7)] {
+            if !max.lt(&x) {
+                v.push(x);
+            }
+        }
+    }
+    for k in (0..256).step_by(if quick { 3 } else { 1 }) {
+        let p = Big::pow2(k);
+        v.push(p.clone());
+        v.push(p.add(&one));
+        if k > 0 {
+            v.push(p.sub(&one));
+        }
+    }
+    // nines with one zero digit at position i (77-digit numbers, all below 2^256)
+    let nines77 = pows[77].sub(&one);
+    for (i, p) in pows.iter().enumerate().take(77) {
+        v.push(nines77.sub(&p.mul_small(9)));
+        // a one at position i, a one at position 0
+        if i > 0 {
+            v.push(p.add(&one));
+        }
+        // two-digit windows around position i: ...0x... with x = 5
+        if i + 1 < 77 {
+            v.push(nines77.sub(&pows[i + 1].mul_small(9)).sub(&p.mul_small(4)));
+        }
+    }
+    v.sort_by(|a, b| a.cmp_big(b));
+    v.dedup();
+    v
+}
+
 pub fn run(rep: &Report) -> i32 {
     let quick = rep.is_quick();
     let cs = cases(quick);
     rep.set("bounds", json!({"widths": WIDTHS, "cases": cs.len(), "byte_array_lengths": "0..33,64", "underscore_positions": if quick {"{0,1,mid,len-1,len} for long digit strings, all otherwise"} else {"all"}}));
     par_for(&cs, rep, 256, |i, c| {
         drive::DUMMY.with(|env| check_case(rep, c, i, env));
+    });
+    // the library's own 256-bit decimal printer / parser (simfony::num::U256): print must be the decimal numeral,
+    // and the numeral must parse back (as a U256 and as a u256 literal)
+    let vals = u256_print_alphabet(quick);
+    rep.set("u256_decimal_print_values", json!(vals.len()));
+    par_for(&vals, rep, 64, |_, b| {
+        use std::str::FromStr;
+        rep.state();
+        rep.transition(1);
+        rep.eval(3);
+        rep.trace(3);
+        let want = b.to_decimal();
+        if want.contains('0') {
+            rep.nontrivial(1);
+        }
+        let mut arr = [0u8; 32];
+        arr.copy_from_slice(&b.to_bytes(32));
+        let u = simfony::num::U256::from_byte_array(arr);
+        let replay = |what: &str| json!({"kind": "u256_decimal", "hex": b.to_hex(64), "decimal": want, "what": what});
+        match drive::guard(|| u.to_string()) {
+            Err(p) => rep.violation(format!("C11:panic:u256-display:{}", drive::panic_site(&p)), format!("U256 Display panicked for 0x{}: {p}", b.to_hex(64)), replay("panic")),
+            Ok(got) if got != want => {
+                rep.class("u256-printed-wrong");
+                rep.violation("C11:u256-decimal-print", format!("U256 0x{} prints as {got}, its decimal numeral is {want}", b.to_hex(64)), replay("print"));
+            }
+            Ok(_) => rep.class("u256-printed-ok"),
+        }
+        match drive::guard(|| simfony::num::U256::from_str(&want)) {
+            Ok(Ok(v)) if v == u => {}
+            other => rep.violation("C11:u256-decimal-parse", format!("U256::from_str({want}) gives {:?}", other.map(|r| r.map(|v| v.to_string()).map_err(|e| e.to_string()))), replay("parse")),
+        }
+        let sty = drive::sim_ty(&Ty::U(256));
+        match drive::guard(|| simfony::Value::parse_from_str(&want, &sty)) {
+            Ok(Ok(v)) if v == drive::sim_val(&Val::U(256, b.clone()), &Ty::U(256)) => {}
+            other => rep.violation("C11:u256-decimal-literal", format!("{want} at u256 gives {:?}", other.map(|r| r.map(|v| v.to_string()).map_err(|e| e.to_string()))), replay("literal")),
+        }
     });
     rep.finish(
         "state = (literal text, type); non-trivial = literals containing an underscore or sitting at a boundary (2^N-1, 2^N)",
